@@ -399,7 +399,7 @@ def case_list(tier):
   # (a model with one tensor name in two subgraphs is refused by quantize()
   # by design; its name-keyed calibration result is not meaningful)
   names = SKELETONS_QUICK if tier == 'quick' else [
-      k for k in fam if k != 'two_subgraphs_same_constant_name']
+      k for k in fam if 'same_constant_name' not in k]
   if tier == 'thorough':
     dags = P.skeleton_family('thorough_dags')
     extra = list(dags)[:80]
@@ -421,6 +421,14 @@ def case_list(tier):
           if n < max(BOUNDS[tier]['samples']) and rname != 'a8w8':
             continue
           out.append((skel, rname, key, n))
+  if tier == 'quick':
+    # every other skeleton of the family once: a8w8, largest dataset
+    for skel in fam:
+      if skel in names or 'same_constant_name' in skel:
+        continue
+      model = flatbuffer_utils.read_model_from_bytearray(bytearray(fam[skel]))
+      for key, _ in signatures(model):
+        out.append((skel, 'a8w8', key, max(BOUNDS[tier]['samples'])))
   return out
 
 
